@@ -16,8 +16,8 @@
 static void handle(int argc, char** argv);
 #include "common.h"
 
-extern bool_t hexEq_fast(const void* buf, const char* hex);
-extern bool_t hexEqRev_fast(const void* buf, const char* hex);
+#include <bee2/core/safe.h>
+/* SAFE(f)/FAST(f): f / f_fast in the default build, f_safe / f under -DSAFE_FAST; both editions are exported */
 
 #define ERR ((size_t)-1)
 #define OP(s) (strcmp(argv[0], s) == 0)
@@ -606,8 +606,8 @@ static void handle(int argc, char** argv)
 			size_t i;
 			v = out_buf(n);
 			for (i = 0; i < n; ++i) v[i] = x[n - 1 - i];
-			printf("%d %d %d %d", hexEq(x, s) ? 1 : 0, hexEq_fast(x, s) ? 1 : 0,
-				hexEqRev(x, s) ? 1 : 0, hexEqRev_fast(x, s) ? 1 : 0);
+			printf("%d %d %d %d", SAFE(hexEq)(x, s) ? 1 : 0, FAST(hexEq)(x, s) ? 1 : 0,
+				SAFE(hexEqRev)(x, s) ? 1 : 0, FAST(hexEqRev)(x, s) ? 1 : 0);
 			/* model: r3/r4 compare reverse(buf) with hexTo(s) */
 			(void)v;
 			out_free(v, n);
